@@ -93,7 +93,11 @@ def run(ctx):
         tf = os.path.join(root, 'train.txt')
         # the list in the `sort | uniq -c` layout (trainer --prefixcount): right-aligned counter, one space, the password - which may
         # itself begin with spaces
-        counted = (i == 2) or (i > 3 and rng.random() < 0.25)
+        counted = (i == 2) or (i > 4 and rng.random() < 0.25)
+        if i in (2, 4):
+            # whatever the seed (and small enough to be enumerated in full): passwords that begin with spaces, a keyboard walk at the
+            # end of a password behind exactly one other character, double quotes inside and at the end of a terminal, a comma
+            pws = ['x1qaz', '!qwer', 'rock"n"roll', 'abc"', '"', 'a,b', 'Summer19', 'x1qaz', 'tiger', 'Tiger', '12345', 'tiger12']
         if counted:
             pws = [' dragon77', '  letmein', ' dragon77'] + pws
             pws = sorted(pws)
